@@ -29,7 +29,7 @@ def run_config(chk, tier, cfgname):
         if im.get("trait") == "collect::Collect" and im["self_s"].startswith("dynamic_roots::"):
             n += 1
             c16.check_impl(chk, prog, im, cfgname)
-    chk.floor("dynamic-root-collect-impls", n, 4)
+    chk.floor("dynamic-root-collect-impls", n, 2)
     slot_strong(chk, prog)
     typestate.apply(chk, "stash-adoption", "adopt", only=lambda r: r.pre["path"] == "DynamicRootSet::stash", aspects=("safety",))
     slots.run_tables(chk, prog)
